@@ -128,6 +128,8 @@ func init() {
 func runC19(c *Ctx, r *Report) {
 	r.Rule("C19/definition-decoder", "platform definitions are decoded by yaml.v3 only (the option table asserts the Go types that decoder produces)", 1)
 	checkDefinitionDecoder(c, r, "C19/definition-decoder")
+	r.Rule("C19/no-shared-defaults", "no constructor copies maps or lock pointers out of a package-level value (options applied to one object never show up in another)", 1)
+	checkNoSharedDefaults(c, r, "C19/no-shared-defaults")
 	r.Rule("C19/settings-writers", "a setting an option can store is otherwise written only by constructors and by its listed run-time owner", 5)
 	checkSettingsWriters(c, r, "C19/settings-writers", nil)
 	r.Rule("C19/ignored-first", "before it has examined the type of the object it is applied to an option returns no error other than the rejection of its own value (bad-option)", 40)
